@@ -87,6 +87,30 @@ class Check:
         self.known = common.known_findings(prop)
         self.notes: list[str] = []
         self.driver_ok = True
+        self.drift = self._source_drift()
+        if self.drift:
+            self.notes.append('source drift (AST of anchor files differs from the fingerprint the model was written against): '
+                              + ', '.join(self.drift) + ' — searches run at thorough depth; drift alone is not a violation')
+
+    def _source_drift(self) -> list[str]:
+        try:
+            sys.path.insert(0, os.path.join(common.VERIF, 'tools'))
+            import fingerprint
+            rec = json.load(open(os.path.join(common.VERIF, 'harness', 'source_fingerprint.json')))['files']
+            cur = fingerprint.fingerprints(common.REPO)
+            anchors = None
+            for line in open(os.path.join(common.VERIF, 'properties.jsonl')):
+                pr = json.loads(line)
+                if pr['id'] == self.prop:
+                    anchors = set(pr.get('anchors', {}).get('files', []))
+            changed = sorted(f for f in set(rec) | set(cur) if rec.get(f) != cur.get(f))
+            if anchors:
+                # _wcparse / _wcmatch / util sit under every entry point
+                anchors |= {'wcmatch/_wcparse.py', 'wcmatch/_wcmatch.py', 'wcmatch/util.py'}
+                changed = [f for f in changed if f in anchors]
+            return changed
+        except Exception:  # noqa: BLE001
+            return []
 
     # -- step 1/2: build -----------------------------------------------------------------
     def build(self) -> bool:
@@ -156,7 +180,7 @@ class Check:
         if self.tier == 'thorough':
             return True
         # quick tier: escalate while a tie is broken and nothing was found, for at most 12 minutes of the run
-        return bool(self.broken_ties) and not self.failing and (time.time() - self.t0) < 720
+        return (bool(self.broken_ties) or bool(self.drift)) and not self.failing and (time.time() - self.t0) < 720
 
     def report(self, f: Failing, known_id: str | None = None) -> None:
         """Report a failing input; `known_id` if the caller attributed it to a listed finding."""
